@@ -184,8 +184,10 @@ def run(tier, seed, replay=None):
         "traces_validated_against_impl": len(cases),
         "correspondence_mismatches": nm,
         "spec_failures_on_impl": ns,
-        "unproved": ["insert_correct (InsertVectorIndices) and expand_correct (GenerateIndexExpandMap): modelled and correspondence-checked against the naive spec on every case, theorem not yet proved"],
+        "unproved": ["InsertVectorIndices: the content of the listed positions ('holes') is proved for a copying move (the model copies, so a hole keeps the old v[p] or the fill value); for element types with a destructive move the C++ leaves moved-from values there, which the property does not constrain and the check masks",
+                     "ApplyIndexMapToMapKeys (NifUtil.hpp:132-151; no caller inside the library) is neither modelled nor tested"],
         "trusted_base": vlib.BASE_TRUSTED + ["modelled, not verified: std::vector (as list with faulting get/set), C integer conversions as explicit wrap"],
         "exhaustive": False,
     })
-    return rep.finish(cov, ["vector lengths below 2^w (w = value bits of the index type); index lists strictly ascending for the functional statements (documented precondition); erase/apply-map/strips safety needs no precondition"])
+    return rep.finish(cov, ["vector lengths below 2^w (w = value bits of the index type); index lists strictly ascending for the functional statements (documented precondition); erase/apply-map/strips safety needs no precondition",
+                            "insert: every index below |v| + |indices| and |v| + |indices| < 2^w (otherwise the guarded early return, proved for any list); expand: mapSize + |indices| < 2^w and < 2^31 (no counter wrap, entries fit an int)"])
